@@ -85,7 +85,7 @@ Proof.
   destruct (check_evidence (n_pool n) (n_chain n) es) as [p' r] eqn:H. cbn [snd] in Hr. subst r.
   unfold check_evidence in H. apply check_loop_spec in H. destruct H as [_ [_ [_ [_ Hok]]]].
   destruct (Hok eq_refl) as [_ [_ [Hall _]]].
-  destruct (Hall e He) as [Hp|[Hn _]]; [|congruence].
+  destruct (Hall e He) as [[Hp _]|[Hn _]]; [|congruence].
   unfold is_pending in Hp. apply existsb_exists in Hp. destruct Hp as [x [Hx Hk]].
   apply key2_eqb_eq in Hk. pose proof (Hd x Hx) as Hdx. unfold is_committed in *. rewrite Hk in Hdx. congruence.
 Qed.
